@@ -48,6 +48,8 @@ def impl_solve_t(case):
         'iters': [int(x) for x in m.__dict__['_iterations']],
         'log': m.__dict__['_evlog'],
         'passvecs': [[lib.fhex(x) for x in v] for v in m.__dict__['_passvecs']],
+        'raised': m.__dict__['_raised'],
+        'blocked': [[b[0], b[1], lib.fhex(float.fromhex(b[2]) if b[2].startswith(('0x', '-0x')) else float(b[2]))] for b in m.__dict__['_blocked']],
     }
 
 
